@@ -73,6 +73,15 @@ def test_mandatory_option_required(
                     option=option
                 )
             )
+        # A tag and its value are one line of the header. Where that line ends
+        # is decided by str.splitlines(), which knows more line boundaries than
+        # the line feed (form feed, U+2028 as pasted from a web page, ...).
+        if any(value.splitlines() != [value] for value in values or ()):
+            raise click.UsageError(
+                _(
+                    "Option '{option}' requires a value that is a single line."
+                ).format(option=option)
+            )
 
 
 # Symbolic links are never followed. The header does not belong in whatever
